@@ -1031,6 +1031,25 @@ class Evaluator:
                         self.assign(st, t['dest'], ('const', 'bool', '1' if same == name.endswith('eq') else '0'), t.get('at'), b)
                         b = t['target']
                         continue
+                    if x0 is not None and x1 is not None and x0[0] == 'agg' and x1[0] == 'agg' and x0[1] == x1[1] and x0[1].endswith('option::Option'):
+                        # `outcome == Some(true)` on an Option<bool> whose variant is known on this path
+                        res_ = None
+                        if x0[2] != x1[2]:
+                            res_ = ('const', 'bool', '0')
+                        elif x0[2] == 'None':
+                            res_ = ('const', 'bool', '1')
+                        else:
+                            pa, pb = x0[3][0], x1[3][0]
+                            if pb[0] != 'const' and pa[0] == 'const':
+                                pa, pb = pb, pa
+                            if pb[0] == 'const' and pb[1] == 'bool':
+                                res_ = pa if pb[2] == '1' else ('un', 'Not', pa)
+                        if res_ is not None:
+                            if name.endswith('ne'):
+                                res_ = ('const', 'bool', '0' if res_[2] == '1' else '1') if res_[0] == 'const' else ('un', 'Not', res_)
+                            self.assign(st, t['dest'], res_, t.get('at'), b)
+                            b = t['target']
+                            continue
                 if name in ('std::option::Option::is_some', 'std::option::Option::is_none') and args and t.get('target') is not None:
                     a0 = args[0]
                     if a0[0] in ('ref', 'rawptr') and len(a0) > 2 and a0[2] is not None:
